@@ -55,7 +55,18 @@ func loadTextPlans() map[string]textPlanJSON {
 func fieldVals(rr dns.RR, steps []textStep) (string, bool) {
 	v := reflect.ValueOf(rr).Elem()
 	var out []string
+	var flat []textStep
 	for _, s := range steps {
+		if s.Kind == "txtpair" || s.Kind == "txtfirst" {
+			// one step, one or two string fields
+			for _, f := range strings.Split(s.Field, ",") {
+				flat = append(flat, textStep{Kind: "endstr", Field: f})
+			}
+			continue
+		}
+		flat = append(flat, s)
+	}
+	for _, s := range flat {
 		if s.Field == "" {
 			continue
 		}
